@@ -124,7 +124,7 @@ fn probe_to_datetime(its: &ITimestamp, off: IOffset) -> IDateTime {
 
 //@harness c02_offset_to_timestamp
 //@target tz::Offset::to_timestamp, Timestamp::from_itimestamp (src/tz/offset.rs, src/timestamp.rs)
-//@prop C02 C05
+//@prop C02 C05 C13
 //@tier quick
 //@doc for every civil datetime and offset: the wrapper hands exactly (datetime, offset) to IDateTime::to_timestamp (contract: unit itime) and returns Ok(that instant) iff it lies within Timestamp::MIN..=Timestamp::MAX, Err otherwise; every Ok value satisfies the Timestamp invariant
 #[kani::proof]
@@ -148,7 +148,7 @@ fn c02_offset_to_timestamp() {
 
 //@harness c02_offset_to_datetime
 //@target tz::Offset::to_datetime (src/tz/offset.rs)
-//@prop C02 C05
+//@prop C02 C05 C13
 //@tier quick
 //@doc for every in-range timestamp and offset: the wrapper hands exactly (second, nanosecond, offset) to ITimestamp::to_datetime (contract: unit itime) and returns its result unchanged; never panics
 #[kani::proof]
